@@ -1,8 +1,8 @@
 From Coq Require Extraction.
 From Coq Require Import ExtrOcamlBasic.
-From NV Require Import Base.Witness Trunc.Stream Trunc.Cram Index.Layout Index.CsiLayout Index.TextIndex Trunc.IndexCut Trunc.Header Trunc.TextHeader Trunc.CramBlocks Trunc.CraiGz Trunc.GziKind.
+From NV Require Import Base.Witness Trunc.Stream Trunc.Cram Index.Layout Index.CsiLayout Index.TextIndex Trunc.IndexCut Trunc.Header Trunc.TextHeader Trunc.CramBlocks Trunc.CraiGz Trunc.GziKind Trunc.ProgCut.
 Extraction "model.ml" nv_types_witness obs_bam obs_bcf obs_bgzf obs_bamz obs_bcf_eager obs_bcfz obs_textz read_bai read_gzi obs_cram32
   read_csi read_tbi read_fai read_crai obs_csiz obs_tbiz
   obs_bam_file obs_bcf_file obs_bam_filez obs_bcf_filez
   obs_sam_text obs_vcf_text obs_sam_textz obs_vcf_textz obs_cram_blocks
-  crai_file_cuts gz_exact_b read_gzi_k.
+  crai_file_cuts gz_exact_b read_gzi_k read_bai_k.
